@@ -1,8 +1,9 @@
 import TabulaModel.Model.XmlTree
 /-
 Model of tabula's DOCX reader (docx/reader.go, document.go, tables.go,
-resolver.go) as it is after the C16 fixes: element order, run text, style ->
-heading level, list level, table grid. Core Lean only.
+resolver.go) as it is after the C16 fixes and the resource bounds of the C02 repairs
+(maxInlineDepth, maxTableGridCells, maxCellSpan, maxListLevel): element order, run text,
+style -> heading level, list level, table grid. Core Lean only.
 
 Inputs are the authored trees of word/document.xml and word/styles.xml; the
 XML tokenisation / struct mapping of encoding/xml is the parameter described in
@@ -77,6 +78,67 @@ def runsOfList : List Node → List Node
   | [] => []
   | n :: rest => runsOfNode n ++ runsOfList rest
 end
+
+/-! ### the depth limit of `decodeContent` (`maxInlineDepth`) -/
+
+/-- `maxInlineDepth` (docx/document.go): how deep inline containers may nest inside a paragraph -/
+def maxInlineDepth : Nat := 10000
+
+mutual
+/-- `paragraphXML.decodeContent(d, depth)` on one child, with the error: a `w:r` is decoded
+(`DecodeElement`, no recursion of `decodeContent`), an inline container is entered with
+`depth+1` - and the callee's first statement `if depth > maxInlineDepth { return error }`
+refuses it when `depth+1 > 10000` -, anything else is skipped. `none` = the error "inline
+containers nested deeper than 10000 levels", which `xml.Unmarshal` hands on. -/
+def decodeNode (depth : Nat) : Node → Option (List Node)
+  | .text _ => some []
+  | .elem tag attrs kids =>
+    if localName tag == sR then some [.elem tag attrs kids]
+    else if containers.contains (localName tag) then
+      (if depth + 1 > maxInlineDepth then none else decodeList (depth + 1) kids)
+    else some []
+def decodeList (depth : Nat) : List Node → Option (List Node)
+  | [] => some []
+  | n :: rest =>
+    match decodeNode depth n with
+    | none => none
+    | some a =>
+      match decodeList depth rest with
+      | none => none
+      | some b => some (a ++ b)
+end
+
+mutual
+/-- how deep the inline containers of a paragraph child nest (a run, and anything that is
+skipped, counts 0; a container one more than its content) -/
+def nestNode : Node → Nat
+  | .text _ => 0
+  | .elem tag _ kids =>
+    if localName tag == sR then 0
+    else if containers.contains (localName tag) then nestList kids + 1
+    else 0
+def nestList : List Node → Nat
+  | [] => 0
+  | n :: rest => max (nestNode n) (nestList rest)
+end
+
+mutual
+/-- the deepest `depth` argument `decodeContent` is entered with below a child (the refused
+entry included): the recursion depth the decoder reaches -/
+def reachNode (depth : Nat) : Node → Nat
+  | .text _ => depth
+  | .elem tag _ kids =>
+    if localName tag == sR then depth
+    else if containers.contains (localName tag) then
+      (if depth + 1 > maxInlineDepth then depth + 1 else reachList (depth + 1) kids)
+    else depth
+def reachList (depth : Nat) : List Node → Nat
+  | [] => depth
+  | n :: rest => max (reachNode depth n) (reachList depth rest)
+end
+
+/-- `paragraphXML.UnmarshalXML` succeeds on the paragraph -/
+def paraDecodes (p : Node) : Bool := (decodeList 0 p.kids).isSome
 
 /-! ### extractRunText -/
 
@@ -391,6 +453,27 @@ def parseCell (tc : Node) : Cell :=
 def parseRows (tbl : Node) : List (List Cell) :=
   (childrenNamed tbl.kids sTr).map fun tr => (childrenNamed tr.kids sTc).map parseCell
 
+/-- the widest row, counted in spanned grid columns (`cols` of `limitTableGrid`, `colCount`
+of `processVerticalMerges` and of `ToModelTable`) -/
+def colCount (rows : List (List Cell)) : Nat :=
+  rows.foldl (fun m row => max m (row.foldl (fun s c => s + c.colSpan) 0)) 0
+
+/-- `maxTableGridCells` (docx/tables.go): the largest grid, rows x spanned columns, on which
+spans are honoured -/
+def maxTableGridCells : Nat := 1048576
+
+/-- `spans` of `limitTableGrid`: some cell spans more than one column or row -/
+def hasSpans (rows : List (List Cell)) : Bool :=
+  rows.any fun row => row.any fun c => decide (c.colSpan > 1) || decide (c.rowSpan > 1)
+
+/-- `limitTableGrid`: a table that has spans, a width `cols > 0` and more than
+`maxTableGridCells / cols` rows (integer division: rows x cols > 2^20) has every column and row
+span set to 1; any other table is left as it is. Runs before `processVerticalMerges`, so the
+row spans it resets are still the initial 1 and the continuation flags stay. -/
+def limitTableGrid (rows : List (List Cell)) : List (List Cell) :=
+  if !hasSpans rows || colCount rows == 0 || decide (rows.length ≤ maxTableGridCells / colCount rows) then rows
+  else rows.map fun row => row.map fun c => { c with colSpan := 1, rowSpan := 1 }
+
 /-- `findCellAtColumn` -/
 def findCellAtColumn : List Cell → Nat → Nat → Nat → Option Nat
   | [], _, _, _ => none
@@ -417,9 +500,6 @@ def mergeRow (rowIdx : Nat) : List Cell → Nat → List (Option Nat) × List (L
         | none => (starts, rows)
     mergeRow rowIdx rest (colIdx + c.colSpan) st'
 
-def colCount (rows : List (List Cell)) : Nat :=
-  rows.foldl (fun m row => max m (row.foldl (fun s c => s + c.colSpan) 0)) 0
-
 def mergeRows : List (List Cell) → Nat → List (Option Nat) × List (List Cell) → List (Option Nat) × List (List Cell)
   | [], _, st => st
   | row :: rest, rowIdx, st => mergeRows rest (rowIdx + 1) (mergeRow rowIdx row 0 st)
@@ -428,7 +508,8 @@ def mergeRows : List (List Cell) → Nat → List (Option Nat) × List (List Cel
 def processVerticalMerges (rows : List (List Cell)) : List (List Cell) :=
   (mergeRows rows 0 (List.replicate (colCount rows) none, rows)).2
 
-def parseTable (tbl : Node) : List (List Cell) := processVerticalMerges (parseRows tbl)
+/-- `ParseTable`: the rows as authored, `limitTableGrid`, then `processVerticalMerges` -/
+def parseTable (tbl : Node) : List (List Cell) := processVerticalMerges (limitTableGrid (parseRows tbl))
 
 /-! ### parseBodyElementsInOrder / processElementsInOrder -/
 
@@ -499,6 +580,31 @@ def processElement (st : Styles) (n : Node) : Elem :=
 /-- the reader's element list (`r.elements`) for a document and an optional styles part -/
 def elements (doc : Node) (styles : Option Node) : List Elem :=
   (parseBodyElementsInOrder doc).map (processElement (stylesOf styles))
+
+/-! ### `docx.Open`: `xml.Unmarshal` of document.xml may refuse the package -/
+
+/-- the paragraphs `xml.Unmarshal` decodes with `paragraphXML.UnmarshalXML` while it fills
+`documentXML`: the direct `w:p` children of the body and the `w:p` children of the cells
+(`w:tr` / `w:tc`) of its direct `w:tbl` children. Anything else (nested tables, text boxes,
+`w:sectPr`, …) has no struct field and is skipped without being decoded. -/
+def decodedParas (root : Node) : List Node :=
+  match bodyOf root with
+  | none => []
+  | some body =>
+    childrenNamed body.kids sP ++
+      (childrenNamed body.kids sTbl).flatMap fun tbl =>
+        (childrenNamed tbl.kids sTr).flatMap fun tr =>
+          (childrenNamed tr.kids sTc).flatMap fun tc => childrenNamed tc.kids sP
+
+/-- `xml.Unmarshal(data, r.document)` succeeds: no decoded paragraph nests its inline
+containers deeper than `maxInlineDepth` -/
+def documentDecodes (root : Node) : Bool := (decodedParas root).all paraDecodes
+
+/-- `docx.Open` as far as the element list goes: `parseDocument` returns the error of
+`xml.Unmarshal` ("unmarshaling document.xml: inline containers nested deeper than 10000
+levels") and `Open` fails - `none`; otherwise the reader holds `elements`. -/
+def openElements (doc : Node) (styles : Option Node) : Option (List Elem) :=
+  if documentDecodes doc then some (elements doc styles) else none
 
 /-! ### headers / footers: `TextWithOptions` only ever uses them to *exclude* paragraphs -/
 
